@@ -36,25 +36,33 @@ CHECKS = {
          "and stops upstream right after the nth item (take_complete).", PROOF_TECH),
  "C08": ("proof", "Theorems for every n>=1, members greeting synchronously or late: arrival-order relay (merge_order), greeting with the first "
          "member (merge_greets), completion exactly when all ended (merge_completes), and merge_safe (late greeter after the end is disposed "
-         "at once; Pulls only to live members).", PROOF_TECH),
+         "at once; Pulls only to live members); and what one activation DOES (passive continuation): a sink Pull / Terminate / Error "
+         "reaches exactly the members that have greeted and not completed, once each (merge_pull_broadcast, merge_term_broadcast).", PROOF_TECH),
  "C09": ("proof", "Theorems for every n: order and laziness of subscription (concat_order), completion (concat_completes), the outstanding "
          "Pull is re-issued at a boundary iff the sink has pulled (concat_pull_carried), no subscription after the end (concat_safe).", PROOF_TECH),
  "C10": ("proof", "Theorems for every arity n>=1: every tuple holds each member's latest value, none before all have one (combine_tuples); "
-         "completion exactly when all members ended (combine_completes). Pull reaching ended members is KF2 (C04).", PROOF_TECH),
+         "completion exactly when all members ended (combine_completes); exactly one tuple per member datum once every other member has a "
+         "value, none before (combine_one_tuple_per_datum); a sink Pull reaches every member (hence every running one; reaching ended "
+         "members too is KF2 under C04).", PROOF_TECH),
  "C11": ("proof", "Theorems (Inv_flatten.v): at every control point at most one inner source is live and it is the stored one (C11_switch); the sink "
          "receives exactly the inner payloads in arrival order (C11_order); a live sink always has a live source behind it and Terminate is "
          "sent only when the outer has completed and no inner is live (C11_completes); each inner/outer subscribed once, stopped once, pulled "
          "only while live (C11_dispose_once); local steps: Pull routing, one Pull on an inner's greeting, the switch.", PROOF_TECH),
  "C12": ("proof", "Theorems for any number of sinks, no nested fan-out (as C12 quantifies): one upstream subscription, started exactly when a "
-         "sink attaches to an empty list (share_one_upstream), upstream alive iff some sink attached at quiescence (share_refcount).", PROOF_TECH),
+         "sink attaches to an empty list (share_one_upstream), upstream alive iff some sink attached at quiescence (share_refcount); every "
+         "attached sink receives every datum and the termination exactly once, in attach order, after which the list is empty and the next "
+         "subscriber starts a fresh upstream subscription (share_fanout_data/_term/_once).", PROOF_TECH),
  "C13": ("proof", "Model: a subscription is a configuration; proved: the state after ISub does not depend on the state before (sub_fresh, all "
          "components but share, share proved NOT fresh) and the two-subscription product machine is the pair of solo runs. Tie: two-subscription "
          "scripts on the crate (same source value subscribed twice) against two independent model configurations, plus a direct projection "
          "test on the crate (projection of the two-subscription trace = the crate's own solo run).",
          "Coq product/freshness theorems + two-subscription correspondence and projection test on the crate"),
- "C14": ("proof", "PARTIAL. Pull regime (pullable upstreams, one Pull per message): proved for map, filter, scan, skip, take, from_iter, concat! "
-         "(any n) that OverPull/OverData/Unanswered never fire, with the counting invariants (owed + ndata = npull, credit + owed = 1). "
-         "flatten: monitors on the crate + correspondence only (no pull-regime theorem yet).", PROOF_TECH),
+ "C14": ("proof", "Pull regime (pullable upstreams, one Pull per message received): proved for all eight components (from_iter, map, filter, "
+         "scan, take, skip, concat! of any n, flatten) that OverPull/OverData/Unanswered never fire, with the conservation laws each proof "
+         "rests on (owed + ndata = npull, credit + owed = 1; flatten: exactly one token of demand, with the sink, on the outer or on the "
+         "stored inner). Compositions of these operators ('programs' in the quantifier) are validated on the crate (closed operator trees "
+         "under the sink-side monitor), not proved; take under concat!/flatten is outside the premise (its output gives Data AND the end for "
+         "one Pull) and is not generated.", PROOF_TECH),
  "C15": ("proof", "Theorems for every iterator (not assumed fused): no violation incl. no nested delivery, the loop-frame shape (at most one "
          "delivery in progress), items in order, never advanced without a Pull, Terminate exactly at the first None, nothing after disposal.",
          PROOF_TECH),
